@@ -66,7 +66,7 @@ def world_of(docs, idtok):
         k = st["kind"][h]
         a = {}
         for n in CARRIED.get(k, ()):
-            v = getattr(o, n)
+            v = getattr(o, n, None)
             if v is not None and v != "":
                 a[n] = text(v) if n != "dtype" else str(v)
         st["rdfattrs"][h] = a
